@@ -87,6 +87,11 @@ def handle : List String → String
     match t.toInt?, parseHexes hs with
     | some T, some bs => " | ".intercalate (getHist (newState T) bs)
     | _, _ => "bad-op"
+  | "timehist" :: t :: _zone :: items =>
+    -- items are <u or ->:<frame hex>; the true instants are for the harness's oracle only
+    match t.toInt?, parseHexes (items.map (fun k => ((k.splitOn ":").getD 1 "x"))) with
+    | some T, some bs => " | ".intercalate (getHist (newState T) bs)
+    | _, _ => "bad-op"
   | ["stream", t, h] =>
     match t.toInt?, parseHex h with
     | some T, some b =>
